@@ -5,6 +5,7 @@ best chain after the first locator hash the node knows on its best chain (after 
 `cap` headers, ending with the stop hash when that is met first. Core Lean only.
 -/
 import BHS.Model.Chain
+import BHS.Model.Sync
 
 namespace BHS.Sync
 open BHS.Chain
@@ -33,5 +34,20 @@ def cutAtStop (hashOf : Src H → H) (stop : H) : List (Src H) → List (Src H)
 
 def reply (hashOf : Src H → H) (n : Node H) (loc : List H) (stop : H) : List (Src H) :=
   cutAtStop hashOf stop (((n.chain.drop (startOf hashOf n loc))).take n.cap)
+
+/-- the first request addressed to `p` among the actions -/
+def requestTo (p : Nat) : List (Action H) → Option (List H × H)
+  | [] => none
+  | .getheaders p' loc stop :: rest => if p' = p then some (loc, stop) else requestTo p rest
+  | _ :: rest => requestTo p rest
+
+/-- the closed loop "engine × conformant node" in the request/response abstraction: in every round the node answers the
+    outstanding request of the sync peer `p` and the engine handles the answer; no outstanding request = quiescent -/
+def rounds (cfg : Cfg H) (n : Node H) (p : Nat) : Nat → State H × Option (List H × H) → State H × Option (List H × H)
+  | 0, x => x
+  | _ + 1, (st, none) => (st, none)
+  | k + 1, (st, some req) =>
+    rounds cfg n p k ((handleHeaders cfg st p (reply cfg.chain.hashOf n req.1 req.2)).1,
+      requestTo p (handleHeaders cfg st p (reply cfg.chain.hashOf n req.1 req.2)).2)
 
 end BHS.Sync
